@@ -453,6 +453,7 @@ type c27DeadLetters struct {
 	sub  eventstream.Subscriber
 	mu   sync.Mutex
 	ids  map[string]int
+	why  map[string]int // dead-letter reasons (first 8 distinct)
 	n    atomic.Int64
 	stop chan struct{}
 	done chan struct{}
@@ -465,7 +466,7 @@ func c27CollectDeadLetters(t testing.TB, sys *actorSystem) *c27DeadLetters {
 	if err != nil {
 		t.Fatalf("c27: subscribe: %v", err)
 	}
-	d := &c27DeadLetters{sub: sub, ids: map[string]int{}, stop: make(chan struct{}), done: make(chan struct{})}
+	d := &c27DeadLetters{sub: sub, ids: map[string]int{}, why: map[string]int{}, stop: make(chan struct{}), done: make(chan struct{})}
 	go func() {
 		defer close(d.done)
 		for {
@@ -490,6 +491,9 @@ func (d *c27DeadLetters) drain() {
 		if tl, ok := dl.Message().(*testpb.TestLog); ok {
 			d.mu.Lock()
 			d.ids[tl.GetText()]++
+			if r := dl.Reason(); len(d.why) < 8 || d.why[r] > 0 {
+				d.why[r]++
+			}
 			d.mu.Unlock()
 			d.n.Add(1)
 		}
@@ -509,6 +513,19 @@ func (d *c27DeadLetters) Count(id string) int {
 }
 
 func (d *c27DeadLetters) Total() int64 { return d.n.Load() }
+
+func (d *c27DeadLetters) Reasons() map[string]int {
+	d.mu.Lock()
+	defer d.mu.Unlock()
+	out := map[string]int{}
+	for k, v := range d.why {
+		if len(k) > 160 {
+			k = k[:160]
+		}
+		out[k] += v
+	}
+	return out
+}
 
 func (d *c27DeadLetters) Close() {
 	close(d.stop)
